@@ -518,6 +518,8 @@ func (g *gen) rewritePkgRefs(info *types.Info, node ast.Node) ast.Node {
 		}
 		return true
 	})
+	// Embedded fields whose type name was renamed, with their new name.
+	fieldNames := make(map[*types.Var]string)
 	var scopeStack []*types.Scope
 	pkgScope := g.pkg.Types.Scope()
 	node = astutil.Apply(node, func(c *astutil.Cursor) bool {
@@ -540,21 +542,19 @@ func (g *gen) rewritePkgRefs(info *types.Info, node ast.Node) ast.Node {
 		}
 		if n, ok := newNames[obj]; ok {
 			// We picked a new name for this symbol. Rewrite it.
+			if f, ok := info.Defs[id].(*types.Var); ok && f.Embedded() {
+				// The identifier also declares an embedded field, which is
+				// called like the type name written here (possibly an alias).
+				fieldNames[f] = n
+			}
 			c.Replace(ast.NewIdent(n))
 			return false
 		}
 		if v, ok := obj.(*types.Var); ok && v.Embedded() {
-			// A field declared by embedding a type is called like the type:
-			// selectors and literal keys follow a renamed local type.
-			t := v.Type()
-			if p, ok := t.(*types.Pointer); ok {
-				t = p.Elem()
-			}
-			if named, ok := t.(*types.Named); ok {
-				if n, ok := newNames[named.Obj()]; ok {
-					c.Replace(ast.NewIdent(n))
-					return false
-				}
+			// Selectors and literal keys follow a renamed embedded field.
+			if n, ok := fieldNames[v]; ok {
+				c.Replace(ast.NewIdent(n))
+				return false
 			}
 		}
 		if par := obj.Parent(); par == nil || par == pkgScope {
